@@ -19,7 +19,7 @@ type c20X struct {
 	LoopYield bool // the command loop parks at some of its yield points
 }
 
-var c20Patterns = []string{"bdat-rset-bdat", "lmtp-data-statuses", "bdat-quit", "bdat-disconnect", "data-twice", "bdat-stale-next-txn", "idle", "starttls"}
+var c20Patterns = []string{"bdat-rset-bdat", "lmtp-data-statuses", "bdat-quit", "bdat-disconnect", "data-twice", "bdat-stale-next-txn", "idle", "starttls", "bdat-empty-last"}
 
 func c20Conn(t *Tape, sc *Scenario, idx int, pat int) (ConnScript, ConnBackendPlan) {
 	var cp ConnBackendPlan
@@ -80,6 +80,14 @@ func c20Conn(t *Tape, sc *Scenario, idx int, pat int) (ConnScript, ConnBackendPl
 		}
 		env(1)
 		steps = append(steps, Step{Kind: kData, Data: []byte("DATA\r\n"), Wait: 1}, Step{Kind: kBody, Data: []byte("hello\r\n.\r\n"), Need: 354, Wait: -1, Pre: p()})
+		cp.Data = []DataPlan{slow()}
+		steps = append(steps, Step{Kind: kQuit, Data: []byte("QUIT\r\n"), Wait: 1, Pre: p()})
+	case 8: // a transfer that is open but has handed nothing to the backend yet when its LAST command arrives
+		env(0)
+		if t.Bool() {
+			steps = append(steps, Step{Kind: kBdat, Data: line("BDAT 0"), Wait: 1, Pre: p()})
+		}
+		steps = append(steps, Step{Kind: kBdat, Data: line("BDAT 0 LAST"), Wait: -1, Pre: p(), Last: true})
 		cp.Data = []DataPlan{slow()}
 		steps = append(steps, Step{Kind: kQuit, Data: []byte("QUIT\r\n"), Wait: 1, Pre: p()})
 	default: // a connection that just sits there
